@@ -117,6 +117,21 @@ impl Arena {
         self.delegate_target().alloc_uninit_slice(count)
     }
 
+    #[cfg(naijascript_verif)]
+    pub fn verif_commit(&self) -> usize {
+        self.delegate_target_unchecked().verif_commit()
+    }
+
+    #[cfg(naijascript_verif)]
+    pub fn verif_capacity(&self) -> usize {
+        self.delegate_target_unchecked().verif_capacity()
+    }
+
+    #[cfg(naijascript_verif)]
+    pub fn verif_base(&self) -> *const u8 {
+        self.delegate_target_unchecked().verif_base()
+    }
+
     #[must_use]
     pub fn vec_into_slice<T: Copy>(vec: Vec<T, &Self>) -> &[T] {
         #[allow(clippy::missing_transmute_annotations)]
